@@ -21,6 +21,12 @@ pub(crate) fn duration_to_instant(duration: Duration) -> Instant {
 /// A helper to get the current time as a `Duration` since the epoch.
 #[inline]
 pub(crate) fn now_duration() -> Duration {
+  // Verification build, frozen mode: time is exactly the virtual clock offset
+  // (deterministic histories, deadlines can be hit exactly).
+  #[cfg(excsn_fibre_verif)]
+  if VERIF_FROZEN.load(std::sync::atomic::Ordering::SeqCst) {
+    return Duration::from_nanos(fibre::verif::clock_offset_nanos());
+  }
   // Verification build: a virtual clock offset is added to the real clock.
   #[cfg(excsn_fibre_verif)]
   if true {
@@ -29,3 +35,8 @@ pub(crate) fn now_duration() -> Duration {
   }
   instant_to_duration(Instant::now())
 }
+
+/// Verification only: when set, `now_duration()` returns the virtual clock offset alone.
+#[cfg(excsn_fibre_verif)]
+pub(crate) static VERIF_FROZEN: std::sync::atomic::AtomicBool =
+  std::sync::atomic::AtomicBool::new(false);
